@@ -1,21 +1,19 @@
-# Per-property configuration of the driver (/verif/check). Budgets live in the Go harness
-# (stats.Budget per test); this table says which test binaries/patterns make up a check.
-PROPS = {
-    "C15": dict(
-        pkg="c15", level="exploration",
-        technique="model-based stateful PBT (rapid): differential memory vs Pebble v1 vs Pebble v2 vs sorted-map reference model",
-        level_text=("Exploration: generated operation histories (thousands per run, every result compared with an explicit reference "
-                    "model and across three backends); samples the space, does not prove absence. Concurrent-reader variant under -race."),
-        rule=("rapid state machine over a tiny key alphabet ({00,01,7f,fe,ff}, length 0-4) applied to memory, Pebble v1, "
-              "Pebble v2 and a sorted-map model; every result compared. Non-trivial = the sequence contains an iterator "
-              "moved back from past the end, a DeleteRange inside a batch overlapping batch-local writes, an 0xff-terminated "
-              "prefix iteration, a snapshot read after a later write, or a failing Update/Write callback; distinct = distinct "
-              "SHA-256 of the rendered operation sequence."),
-        assumptions=["Pebble's own batch atomicity/WAL is trusted", "error identity compared only for db.ErrKeyNotFound",
-                     "iterator calls stay within the documented contract (DESIGN §4 C15)"],
-        runs=[dict(run="^TestProp"), dict(run="^TestRace", race=True)],
-    ),
-}
+# Aggregates the per-property driver configuration: every /verif/harness/cNN/config.py defines
+#   PROP = dict(pkg=..., level=..., technique=..., level_text=..., rule=..., assumptions=[...], runs=[...])
+# Budgets (cases per shard and tier) live in the Go harness (stats.Budget); `runs` lists the -test.run
+# patterns that make up the check, with race=True for binaries built with -race, thorough_only=True,
+# fuzz="FuzzName" (native fuzzing, thorough tier only).
+import glob, os, re
 
+_here = os.path.dirname(os.path.abspath(__file__))
+PROPS = {}
+for _p in sorted(glob.glob(os.path.join(_here, "harness", "c[0-9][0-9]", "config.py"))):
+    _ns = {}
+    exec(compile(open(_p).read(), _p, "exec"), _ns)
+    _pid = "C" + re.search(r"c(\d\d)", os.path.basename(os.path.dirname(_p))).group(1)
+    PROPS[_pid] = _ns["PROP"]
+
+# Properties deliberately not claimed, with the reason (others not yet built get a default reason).
 NOT_APPLICABLE = {}
+# /repo commits that add build-tag-guarded hooks (MANIFEST.hooks.source_commits)
 HOOK_COMMITS = []
